@@ -50,3 +50,103 @@ pub fn check_diff_golden(st: &mut Stats) -> Result<u64, String> {
 pub fn check_cmp_golden(st: &mut Stats) -> Result<u64, String> {
     check_cmp_diff("cmp", st)
 }
+
+// ---------------------------------------------------------------------------------------------
+// range goldens: JSON lines {"ast":..., "text":..., "probes":[...], "node":"TF.."|"E"}
+use crate::gen::range_ast::{Alt, Comp, Op, RangeAst, Tok};
+use crate::model::npm;
+
+#[derive(serde::Deserialize)]
+struct RangeGolden {
+    ast: RangeAst,
+    text: String,
+    probes: Vec<String>,
+    node: String,
+}
+
+/// masks where node-semver itself deviates from its documentation (DESIGN 3.4)
+pub fn golden_case_masked(ast: &RangeAst) -> Option<&'static str> {
+    for a in &ast.alts {
+        if let Alt::Simples { toks, .. } = a {
+            let has_garbage = toks.iter().any(|t| t.is_garbage());
+            let has_bare_wild = toks.iter().any(|t| matches!(t, Tok::Cmp { op: Op::Bare | Op::Eq, p, .. } if p.comps[0].is_wild()));
+            if has_garbage && has_bare_wild {
+                return Some("(e) wildcard token next to garbage tokens");
+            }
+        }
+        for (p, op) in a.partials() {
+            // (a) caret with a zero major spelled with leading zeros
+            if op == Some(Op::Caret) {
+                if let Some(Comp::Num { val: 0, zeros }) = p.comps.first() {
+                    if *zeros > 0 {
+                        return Some("(a) caret zero major spelled 00");
+                    }
+                }
+            }
+        }
+    }
+    None
+}
+
+fn star_like(set: &npm::CmpSet) -> bool {
+    set.iter().all(|c| c.op == npm::COp::Ge && c.v.tuple() == (0, 0, 0) && !c.v.is_pre())
+}
+
+pub fn check_range_golden(st: &mut Stats) -> Result<u64, String> {
+    let s = load("npm_range.jsonl")?;
+    let mut n = 0u64;
+    let mut masked = 0u64;
+    for line in s.lines() {
+        if line.trim().is_empty() {
+            continue;
+        }
+        let g: RangeGolden = serde_json::from_str(line).map_err(|e| format!("bad golden line: {}", e))?;
+        if g.ast.render() != g.text {
+            return Err(format!("golden text {:?} is not the rendering of its AST ({:?})", g.text, g.ast.render()));
+        }
+        if golden_case_masked(&g.ast).is_some() {
+            masked += 1;
+            continue;
+        }
+        let sets = npm::desugar(&g.ast);
+        if g.node == "E" {
+            if !sets.is_empty() {
+                return Err(format!("oracle self-test: node rejects {:?} but the oracle reads it as {:?}", g.text, npm::sets_text(&sets)));
+            }
+            n += 1;
+            continue;
+        }
+        if sets.is_empty() {
+            return Err(format!("oracle self-test: node accepts {:?} but the oracle finds no comparator", g.text));
+        }
+        let any_star = sets.iter().any(star_like);
+        let ans: Vec<char> = g.node.chars().collect();
+        if ans.len() != g.probes.len() {
+            return Err(format!("golden line for {:?}: {} answers for {} probes", g.text, ans.len(), g.probes.len()));
+        }
+        for (p, a) in g.probes.iter().zip(ans.iter()) {
+            let v = parse_canonical(p).ok_or_else(|| format!("bad probe {:?}", p))?;
+            if npm::dont_care(&sets, &v) || (any_star && v.is_pre()) {
+                masked += 1;
+                continue;
+            }
+            let exp = if npm::admits(&sets, &v) { 'T' } else { 'F' };
+            if exp != *a {
+                return Err(format!(
+                    "oracle self-test: range {:?} version {}: oracle ({:?}) says {} but node-semver says {}",
+                    g.text,
+                    p,
+                    npm::sets_text(&sets),
+                    exp,
+                    a
+                ));
+            }
+            n += 1;
+        }
+    }
+    if n == 0 {
+        return Err("golden file npm_range.jsonl is empty".into());
+    }
+    st.notes.push(format!("oracle self-test: {} golden node-semver range answers reproduced ({} masked as documented node deviations)", n, masked));
+    Ok(n)
+}
